@@ -64,6 +64,12 @@
 //!         the observed choice `@woken=<0|1>` on the op line and as meta line `#woken <c> <t> <0|1>`: a waker may fire
 //!         spuriously, but once min(done, deadline) has been reached it must have fired (the model checks the obligation:
 //!         `probe woken <c> lost-wakeup` otherwise).  0 for a call never polled, resolved or dropped.
+//! Mutable state read by the timeout function (optional; an op file without it means what it meant):
+//! manual  `knob v=<ms|max>` / `knob v=-`: the `timeout_fn` closure (`f…` in the chain, `dyn=1`) answers the request's own
+//!         `timeout=`, else the CURRENT value of the knob, else its default — a closure may read anything, e.g. a budget an
+//!         operator turns at run time.  `call()` asks the timeout source: what counts is the knob when the call is MADE
+//!         (`arrive`), not when the response future is first polled (which may be much later, and in another order than
+//!         the calls were made).  A fixed source never reads it.  `probe source` reads it as well.  Meta `#knob <t> <v>`.
 //! Construction context (optional; an op file without it means what it meant):
 //! header  `built=<here|other-idle|other-dropped>`: which tokio runtime is CURRENT while the layer value and the services are
 //!         constructed (the builder chain, `.build()`, `Layer::layer` -> `TimeLimiter::new`).  `here` (default): the case's
@@ -163,9 +169,17 @@ fn tmo_text(d: Duration) -> String {
 
 type PerReq = Arc<Mutex<HashMap<usize, Duration>>>;
 
+/// the key of the per-request table under which the KNOB lives (`manual knob v=<ms|max|->`): mutable state the
+/// `timeout_fn` closure reads besides the request — no request has this id
+const KNOB: usize = usize::MAX;
+
+/// the `timeout_fn` closure: the request's own timeout, else the knob's CURRENT value, else the default
 fn extractor(table: &PerReq, dflt: Duration) -> DynFn {
     let table = table.clone();
-    Box::new(move |req: &Req| table.lock().unwrap().get(&req.c).cloned().unwrap_or(dflt))
+    Box::new(move |req: &Req| {
+        let t = table.lock().unwrap();
+        t.get(&req.c).or_else(|| t.get(&KNOB)).cloned().unwrap_or(dflt)
+    })
 }
 
 // listeners registered through the chain: registrations / firings / call results rendered, per kind
@@ -606,6 +620,19 @@ impl Mw for Adapter {
             self.layer = None;
             self.inner = None;
             self.gone = true;
+        }
+        if what == "knob" {
+            // also after `dropsvc`: the state the closure reads is not part of the service
+            match kv.get("v").and_then(tmo) {
+                Some(d) => {
+                    self.per_req.lock().unwrap().insert(KNOB, d);
+                    log_raw(format!("#knob {} {}", now_ms(), tmo_text(d)));
+                }
+                None => {
+                    self.per_req.lock().unwrap().remove(&KNOB);
+                    log_raw(format!("#knob {} -", now_ms()));
+                }
+            }
         }
         if what == "forget" && !self.gone {
             if kv.get("layer").is_some() {
